@@ -109,3 +109,27 @@ package jsonapi
 //@ loop 1 invariant sr: sr != nil && fresh(sr) && sr.Type == s.Type && s.Type == pre(s.Type) && sr.id == pre(sr.id) && srTypeWf(sr)
 //@ loop 1 invariant col: s.col == pre(s.col) && unchanged(heap[*SoftResource]) && unchanged(heap[SoftCollection]) && unchanged(heap[SoftResource])
 //@ loop 1 invariant res-wf: relsWf(R_rels($rh, r))
+
+// Add stores a snapshot of the well-typed attribute values (C19).
+//@ func SoftCollection.Add+
+//@ requires res-disjoint: forall k string :: !(k in R_attrs($rh, r) && k in R_rels($rh, r))
+//@ spec snapAttr(sr *SoftResource, r Resource, a string) = a != "id" && a in R_attrs($rh, r) && a in sr.Type.Attrs && setsAttr(R_get($rh, r, a), sr.Type.Attrs[a]) ==> sr.data != nil && a in sr.data && sr.data[a] == R_get($rh, r, a)
+//@ ensures attr-values: forall a string :: snapAttr(s.col[old(len(s.col))], r, a)
+//@ loop 0 invariant attr-values: forall a string :: visited(a) ==> snapAttr(sr, r, a)
+//@ loop 1 invariant attr-values: forall a string :: snapAttr(sr, r, a)
+//@ loop 0 invariant attrs-stable: forall k string :: (k in R_attrs($rh, r)) == old(k in R_attrs($rh, r)) && (k in R_attrs($rh, r) ==> R_attrs($rh, r)[k] == old(R_attrs($rh, r)[k]))
+//@ loop 1 invariant attrs-stable: forall k string :: (k in R_attrs($rh, r)) == old(k in R_attrs($rh, r))
+//@ loop 1 invariant rels-stable: forall k string :: (k in R_rels($rh, r)) == old(k in R_rels($rh, r)) && (k in R_rels($rh, r) ==> R_rels($rh, r)[k] == old(R_rels($rh, r)[k]))
+//@ assert after Set#1 snap-kept: forall a string :: snapAttr(sr, r, a)
+//@ assert after Set#2 snap-kept: forall a string :: snapAttr(sr, r, a)
+//@ assert before AddRel#0 rel-not-attr: rel.FromName in R_rels($rh, r) && !(rel.FromName in R_attrs($rh, r))
+//@ ghost before AddRel#0 dd0 = mapdom(sr.data)
+//@ ghost before AddRel#0 dv0 = mapval(sr.data)
+//@ ghost before AddRel#0 at0 = sr.Type.Attrs
+//@ assert after AddRel#0 kept-data: forall a string :: a != rel.FromName && a in dd0 && srIsField(sr, a) ==> a in sr.data && sr.data[a] == dv0[a]
+//@ assert after AddRel#0 kept-attrs: at0 != nil ==> sr.Type.Attrs == at0
+//@ assert after AddRel#0 new-attrs-empty: at0 == nil ==> (forall a string :: !(a in sr.Type.Attrs))
+//@ assert after AddRel#0 snap-kept0: forall a string :: snapAttr(sr, r, a)
+//@ spec snapRel(sr *SoftResource, r Resource, k string) = k != "id" && k in R_rels($rh, r) && !(k in sr.Type.Attrs) && k in sr.Type.Rels && relTyped(R_get($rh, r, k), sr.Type.Rels[k]) ==> sr.data != nil && k in sr.data && sr.data[k] == R_get($rh, r, k)
+//@ ensures rel-values: forall k string :: snapRel(s.col[old(len(s.col))], r, k)
+//@ loop 1 invariant rel-values: forall k string :: visited(k) ==> snapRel(sr, r, k)
